@@ -125,7 +125,7 @@ func entryIDs(es []vkit.SnapEntry) []string {
 // checkC05 sweeps the complete mode table with real environment variables:
 // 16 child processes (CI x UPDATE_SNAPS x Sort), 90 + 15 cells each.
 func checkC05(c *vkit.Ctx) {
-	c.P.Rule = "complete product CI{on,off} x Update{unset,true,false} x UPDATE_SNAPS{unset,true,clean,other} x Sort{off,on} x entry point(5) x entry state{missing,equal,different} x obsolete{absent,present} = 1440 cells, swept for three value families (plain, blank stored value, hostile lines); 16 real child processes per sweep (environment variables CI / UPDATE_SNAPS set for real, Clean option) each running 90 cells in separate absolute directories plus 15 cells whose snapshot directory does not exist yet (a rejected call must leave no directory behind), then Clean; oracle: literal mode table for the call outcome and for the per-path directory delta of the Match phase and of the Clean phase (backdated mtimes: untouched means not written), Clean summary verbs and lists; non-trivial = every cell (each is a distinct configuration); the table is swept completely on every run; thorough repeats it for several value/name seeds and adds an strace witness on CI cells"
+	c.P.Rule = "complete product CI{on,off} x Update{unset,true,false} x UPDATE_SNAPS{unset,true,clean,other} x Sort{off,on} x entry point(5) x entry state{missing,equal,different} x obsolete{absent,present} = 1440 cells, swept for three value families (plain, blank stored value, hostile lines); 16 real child processes per sweep (environment variables CI / UPDATE_SNAPS set for real, Clean option) each running 90 cells in separate absolute directories plus 15 cells whose snapshot directory does not exist yet (a rejected call must leave no directory behind), then Clean; oracle: literal mode table for the call outcome and for the per-path directory delta of the Match phase and of the Clean phase (backdated mtimes: untouched means not written), Clean summary verbs and lists; non-trivial = every cell (each is a distinct configuration); the table is swept completely on every run; CI processes of odd rounds run as an unprivileged user on a read-only tree (files 0444, directories 0555); thorough repeats it for several value/name seeds and adds an strace witness on CI cells"
 	c.P.Assumptions = []string{"children run with a minimal environment plus one of eleven CI-on variable sets (CI=true|1|empty, GITHUB_ACTIONS, GITLAB_CI, CIRCLECI, BUILD_NUMBER, RUN_ID, CONTINUOUS_INTEGRATION) or, for CI off, nothing or CI=false (alone, or overriding a vendor variable) - the detection rule is ciinfo's", "strace (thorough) is a second witness only; the digest decides"}
 	p, done := workerProgram(c, "")
 	defer done()
@@ -233,6 +233,12 @@ func runC05Proc(c *vkit.Ctx, p *Program, caseIdx, round int, ci bool, updVar str
 		}
 	}
 	opt := RunOpt{PkgDir: "", Scenario: scn, CI: ci, Update: updVar}
+	if ci && round%2 == 1 && os.Getenv("VERIF_NO_NOBODY") == "" {
+		// a CI run on a read-only checkout, as an ordinary user: nothing may be written on CI,
+		// so nothing can depend on write permission either
+		opt.AsNobody = true
+		c.Count("ci_processes_as_unprivileged_user_on_a_read_only_tree", 1)
+	}
 	var straceLog string
 	if c.Thorough() && ci {
 		straceLog = filepath.Join(cellsRoot, "..", fmt.Sprintf("strace-%d.log", caseIdx))
@@ -407,7 +413,11 @@ func runC05Proc(c *vkit.Ctx, p *Program, caseIdx, round int, ci bool, updVar str
 	sort.Strings(expTests)
 	s := res.Summary
 	if s == nil || !s.Present {
-		c.Violate("no-summary", "", procDesc, nil)
+		class := ""
+		if opt.AsNobody {
+			class = "clean-needs-write-permission-to-report"
+		}
+		c.Violate("no-summary", class, procDesc, nil)
 		return
 	}
 	verb := "obsolete"
